@@ -320,5 +320,11 @@ for _K_, _V_ in dataclasses.asdict(__D__).items():
                                                                                                        "calibration_map", "config")}
     ctx.oblige("FIT", "py/formak/python.py:SklearnEKFAdapter.export_python", f"compile_ekf({', '.join(args)})", okae, file="py/formak/python.py",
                func="SklearnEKFAdapter.export_python", construct="export args", msg="the exported filter is not compiled from exactly the estimator's six parameters")
+    # GridSearchCV refits best_estimator_ through the adapter's fit: the hyper-parameters the search selected must survive it (shared with C17)
+    from . import c17 as _c17
+    from .. import normast as _nm
+    afit = core.need(core.find_func(ad, "fit"), "SklearnEKFAdapter.fit")
+    ctx.functions.append("python.SklearnEKFAdapter.fit")
+    _c17.fit_param_integrity(ctx, ad, _nm.Normaliser(None).function(afit), "FIT")
     c17.set_params_rule(ctx, ad, py)
     return core.finish(ctx, explanation="declared transition graph extraction, typestate (who may construct), BFS discipline, grid/export dataflow", **META)
